@@ -34,8 +34,6 @@ HDR = re.compile(r"(?:,-|╭─)\[ ?([^\]\s]+):(\d+):(\d+) ?\]")
 CODE = re.compile(r"\[([EL]\d+)\]")
 LOC = re.compile(r'Location \{ source_filename: "((?:[^"\\]|\\.)*)", span: (\d+)\.\.(\d+), line_number: (\d+), line_offset: (\d+) \}')
 NAMED_LOC = re.compile(r'(?<![A-Za-z_])name: "((?:[^"\\]|\\.)*)", location: Location \{ source_filename: "((?:[^"\\]|\\.)*)", span: (\d+)\.\.(\d+),')
-# kinds of which the same instance (same locations) twice in one list means a stale location
-DUP_CHECKED = ["UndefinedMember {", "UndefinedVariable {", "UndefinedFunction {", "UndefinedStructure {", "ArgumentTypeMismatch {", "NotMutable {"]
 LEXICAL = re.compile(r'Lexical \{ error: (\w+), location: Location \{ source_filename: "((?:[^"\\]|\\.)*)", span: (\d+)\.\.(\d+),')
 EXPECTATION = re.compile(r'expectation: "((?:[^"\\]|\\.)*)"')
 ANSI = re.compile(rb"\x1b\[[0-9;]*m")
@@ -805,6 +803,7 @@ def check_locations_structured(s, wd, stats):
     starts = set()      # (file, line, column) of the start of every Location of every diagnostic
     label_texts = {}    # (file, line) -> texts under the single-line Locations that start on that line
     seen_errors = set()
+    renamed_reports = 0
     have_all = True
     for line in r.out.decode(errors="replace").splitlines():
         try:
@@ -823,11 +822,11 @@ def check_locations_structured(s, wd, stats):
                 # (a call is located at its callee's name, a cast at its operand...: a leading part will do)
                 if got is not None and not re.search(r"(?<![A-Za-z0-9_])" + re.escape(" ".join(got.split())) + r"(?![A-Za-z0-9_])", " ".join(s["blamed_argument"].split())):
                     viol.append(("wrong_argument_blamed", "the call's wrong argument is %r but the diagnostic underlines %r: %s" % (s["blamed_argument"], got, e[:160])))
-            # the same diagnostic is not reported twice
-            if e.startswith(tuple(DUP_CHECKED)):
-                if e in seen_errors:
-                    viol.append(("diagnostic_reported_twice", "twice in one list: %s" % e[:240]))
-                seen_errors.add(e)
+            # the three uses of the renamed member (mistake same_missing_member_twice) are three places
+            if e.startswith("UndefinedMember {") and 'name_of_member: "total", name_of_structure: "ZzRenamed"' in e:
+                _v, ef = seclabels.parse_fields(e)
+                seen_errors.add(ef.get("location"))
+                renamed_reports += 1
             for fn0, a0, _b0, _ln0, _lo0 in LOC.findall(e):
                 t0 = texts.get(fn0)
                 if t0 is None:
@@ -897,6 +896,9 @@ def check_locations_structured(s, wd, stats):
                     if name not in got and "\\" not in name:
                         viol.append(("span_does_not_cover_named_text", "%s span %s..%s covers %r but the diagnostic is about %r: %s" %
                                      (fn, a, b, got, name, e[:200])))
+    if renamed_reports >= 3 and len(seen_errors) < 3:
+        viol.append(("stale_location_for_repeated_use", "the member `total` is missing at three places; %d reports name %d place(s): %s" %
+                     (renamed_reports, len(seen_errors), sorted(x or "" for x in seen_errors)[:3])))
     # every `[ file:line:col ]` header of the rendered report is the start of one
     # of the diagnostic's locations (wrong index type, shifted columns)
     rendered = stats.get("base_stderr")
